@@ -9,12 +9,15 @@ The way of the hopping list from the Mobile Allocation decoder to the per-frame 
                                                          here: `l1ctlTxDmEstReqH1` (uint8_t n, htons copy loop into ma[64])
   trxcon    l1ctl_rx_dm_est_req / l1ctl_proc_est_req_h1 (trxcon/src/l1ctl.c)
                                                          here: `trxconProcEstReqH1` (n = 0, n > 64, ntohs copy loop)
-  trxcon    handle_dch_est_req (trxcon/src/trxcon_fsm.c) here: `handleDchEstReq`   (TRXCON_PHYIF_CMDT_SETFREQ_H1)
+  trxcon    handle_dch_est_req (trxcon/src/trxcon_fsm.c) here: `handleDchEstReq`   (TRXCON_PHYIF_CMDT_SETFREQ_H1; the command
+            → trxcon_phyif_handle_cmd (trxcon_main.c)                              goes to trx_if_handle_phyif_cmd unchanged)
   trxcon    trx_if_handle_phyif_cmd / trx_if_cmd_setfh   Model/TrxconIf.lean      (`cPhyCmd`)
   fake_trx  CTRLInterface.handle_rx … enable_fh          Model/World.lean         (`handleRx`)
   fake_trx  Transceiver.get_rx_freq / get_tx_freq        Model/World.lean, Model/Hopping.lean
   firmware  l1ctl_rx_dm_est_req (layer1/l23_api.c)       here: `fwDmEstReqH1`      (ntohs copy loop into l1s.dedicated.h1)
   firmware  rfch_get_params                              Model/Hopping.lean       (`fwGetParamsArfcn`)
+  layer23   SI4 CBCH caller (sysinfo.c:997 → misc/app_cbch_sniff.c try_cbch)      here: `cbchPath` (no conversion loop)
+Capacities and constants come from Gen/HopChain.lean (gen/hop_chain.py, regenerated on every run).
 
 Every array is a list whose length is its capacity; an index outside it is a `Fault`, never a
 default.  `uint16_t` values cross the L1CTL socket as two octets in network byte order (`htons` on
